@@ -10,7 +10,8 @@ that is shared (chunk files of an earlier run under every plausible buffer name,
 after a successful run, two calls at the same time).
 
 Every run of a real stage happens in a child interpreter under strace
-(harness/fstrace.py).  Per traced run:
+(harness/fstrace.py); the trace contains the run's effects AND its observations (stat / exists / access /
+opening a directory / calls that failed: `Stat p answer`).  Per traced run:
  (a) correspondence: the observed operation trace is accepted by the extracted acceptor
      (coq/Model/FsModel.v, tag 1901) and the model's final file system equals the observed
      directory listing (names, kinds, and unchanged content where the model says unchanged);
@@ -40,7 +41,11 @@ CODES = {1: 'read of a path that is neither an input nor made by this run',
          6: 'removal of a path not made by this run',
          7: 'something made under scratch is left at Return',
          8: 'operation after Return', 9: 'no Return', 10: 'directory renamed',
-         11: 'non-truncating write to a declared output left by an earlier run'}
+         11: 'non-truncating write to a declared output left by an earlier run',
+         12: 'look (stat / exists / access / failed call) at a path that is neither declared, an ancestor of a declared '
+             'path, nor below a name this run made: an entry -- or its absence -- of the shared directories',
+         13: 'removal (or renaming away) of a declared output that existed before this run'}
+PROBE = {'absent': 0, 'file': 1, 'dir': 2, 'exists': 3}
 
 # ------------------------------------------------------------------ model glue
 class Namer:
@@ -100,6 +105,8 @@ def enc_op(nm, o, cid):
         return [2, p, 1 if o['trunc'] else 0, cid]
     if k == 'Rename':
         return [6, p, nm.enc(o['q'])]
+    if k == 'Stat':
+        return [9, p, PROBE[o['r']]]
     return [{'Mkdir': 3, 'Unlink': 4, 'Rmdir': 5, 'ListDir': 7}[k], p]
 
 
@@ -121,6 +128,8 @@ def describe_op(rec, i):
         s += f" -> {o['q']}"
     if o['k'] in ('Create', 'OpenW'):
         s += f" trunc={o.get('trunc')}"
+    if o['k'] == 'Stat':
+        s += f" -> {o.get('r')} (via {o.get('via')})"
     return s
 
 
@@ -231,6 +240,28 @@ def overlay_rec(rec, decl):
     for k in ('before', 'at_return', 'after'):
         res[k] = fsnap(res[k])
     return dict(rec, res=res, ops=[fop(o) for o in rec['ops']], late=[fop(o) for o in rec['late']])
+
+
+def drop_cwd_probes(ctx, rec, job, tmp_dirs, out_dirs, decl):
+    """Looks (Stat) at paths below the WORKING directory of the run, when that directory is none of the directories
+    the property speaks about (scratch, outputs, inputs): the interpreter resolving a relative file name -- observed:
+    linecache looking for the source 'h5py/_objects.pyx' of a Cython frame while run_mapping formats the traceback of
+    a failing run.  They are counted and not given to the acceptor (whose rule 12 is about the shared scratch/output
+    directories).  Anything else than a look there (a file made, read, listed) stays in the trace."""
+    cwd = job.get('cwd')
+    if not cwd:
+        return rec
+    special = tmp_dirs + out_dirs + [os.path.dirname(p) for p in decl['inputs']]
+    if any(cwd == d or cwd.startswith(d + '/') or d.startswith(cwd + '/') for d in special):
+        return rec
+
+    def is_cwd_probe(o):
+        return o['k'] == 'Stat' and (o['p'] == cwd or o['p'].startswith(cwd + '/'))
+    n = sum(1 for o in rec['ops'] + rec['late'] if is_cwd_probe(o))
+    if n:
+        ctx.dist('looks-into-working-directory-dropped', sorted({os.path.relpath(o['p'], cwd) for o in rec['ops'] + rec['late']
+                                                                  if is_cwd_probe(o)})[0])
+    return dict(rec, ops=[o for o in rec['ops'] if not is_cwd_probe(o)], late=[o for o in rec['late'] if not is_cwd_probe(o)])
 
 
 # ------------------------------------------------------------------ the checks on one traced run
@@ -423,6 +454,12 @@ def check_run(ctx, rec, history, baseline=None, region_only=False, expect_ok=Non
         ctx.violation(f'{history}/{label}: {what}', dict(desc, **{'class': cls, 'detail': [w for c, w in bad_b if c == cls]}))
 
     # ---------------- (a) correspondence with the acceptor
+    if rec['notes'].get('failed_unmapped'):
+        ctx.violation(f'{history}/{label}: failed system calls the harness has no reading for: {rec["notes"]["failed_unmapped"][:5]}',
+                      dict(desc, **{'class': 'corr:fstrace.failed-call-unmapped'}), no_input=True)
+    if rec['notes'].get('reordered'):
+        ctx.dist('trace-causally-reordered', 'some')
+    rec = drop_cwd_probes(ctx, rec, job, tmp_dirs, out_dirs, decl)
     rec_a = overlay_rec(rec, decl)
     res_a = rec_a['res']
     nm = Namer(all_paths(rec_a, decl, extra=list(res_a['at_return']) + list(res_a['after'])))
@@ -674,6 +711,11 @@ def concurrent_pair(ctx, k, sb, ja, jb, baseline_a, baseline_b, history,
     if da.get('scratch2') or db.get('scratch2'):
         raise RuntimeError('concurrent pairs are run with ONE directory for temporary data (the two-run model has one scratch root)')
     # the pair as ONE interleaving through the two-run acceptor
+    def _dirs(job, decl):
+        return ([decl['scratch']] + list(decl.get('scratch2') or []),
+                sorted({os.path.dirname(p) for p in decl['outputs']}) or [r for r in job['roots'] if r.endswith('/out')])
+    ra = drop_cwd_probes(ctx, ra, ja, *_dirs(ja, da), da)
+    rb = drop_cwd_probes(ctx, rb, jb, *_dirs(jb, db), db)
     paths = set(before) | set(after) | all_paths(ra, da) | all_paths(rb, db)
     nm = Namer(paths)
     fs0, ids = enc_fs(nm, before)
@@ -968,8 +1010,21 @@ def run(ctx):
                 'operations on the sandbox directories including a Mkdir and an Unlink; a concurrent pair is '
                 'non-trivial when the two runs overlap in time and the merged trace switches between them')
     ctx.assumptions += [
-        'observed through strace -f on openat/open/creat/mkdir(at)/unlink(at)/rmdir/rename(at)(2)/getdents64: stat-like '
-        'probes (exists(), is_file()) are not operations of the model',
+        'observed through strace -f on openat/open/creat/mkdir(at)/unlink(at)/rmdir/rename(at)(2)/getdents64 and on the '
+        'observations stat/lstat/newfstatat/statx/access/faccessat(2)/readlink(at): every look at a path below the sandbox '
+        'roots (exists(), is_file(), os.stat, opening a directory, a call that fails with ENOENT/ENOTDIR/EEXIST/EISDIR) is '
+        'an operation `Stat p answer` of the model, refused (code 12) unless p is declared, an ancestor of a declared path, '
+        'or at/below a name the run made itself in the scratch root; fstat of an open descriptor (AT_EMPTY_PATH) is not an '
+        'operation (the open is); a failed call with another errno is reported (corr:fstrace.failed-call-unmapped)',
+        'looks (Stat) at paths below the working directory of the run -- which is none of the directories the property '
+        'speaks about -- are counted (distribution.looks-into-working-directory-dropped) and not given to the acceptor: '
+        "observed is linecache resolving the relative source name 'h5py/_objects.pyx' of a Cython frame when run_mapping "
+        'formats the traceback of a failing run; anything else there (a file made, read, listed) stays in the trace',
+        'strace -f logs a call when it handles its exit: a call of one process that succeeded on p (or was told p exists) '
+        'and is logged within 50 ms behind the removal of p by ANOTHER process, with nothing re-creating p in between, is moved '
+        'in front of that removal, and a call that was told p is absent, logged while p exists just in front of its removal '
+        'by another process, is moved behind it (fstrace.causal_order; orphaned workers reading while the finally block of a '
+        'failing run_mapping removes; counted in distribution.trace-causally-reordered)',
         'HDF5 H5Fcreate probes an existing file with open(O_RDWR) before truncating it: the probe is dropped when the next '
         'operation of that process on that path is the truncating create (fstrace.to_ops)',
         'gc.collect() runs before a run counts as returned (destructor-time cleanup of FileTracker / AnnDataRowIterator)',
